@@ -251,19 +251,34 @@ Example limits_new_unchoke_guard_up_nonvacuous :
 Proof. vm_compute. split; reflexivity. Qed.
 
 (* ---------------------------------------------------------------- refuted statements (faithful model) *)
-(* "receive_tick ends with at most max_upload_unchoked connections unchoked, apart from those forced
-   by min_slots": false. quota -= size_unchoked() in ResourceManager::balance_unchoked wraps below 0
-   when a group's min_slots force more than its share; the next group then gets an unlimited quota. *)
+(* Regression witness of the defect repaired in /repo commit 8c9c20f (quota -= size_unchoked()
+   wrapped in ResourceManager::balance_unchoked): group 0 is forced to 3 by min_slots, and group 1,
+   which has no min_slots, now gets nothing beyond the global maximum 2. *)
 Definition tick_ops : list (op * list N) :=
   [(ONew 0, []); (ONew 0, []); (ONew 0, []); (ONew 1, []); (ONew 1, []); (ONew 1, []); (OSetGroup 1 1, []);
    (OSetMinSlots Up 0 3%N, []); (OSetGMax Up 2%N, []);
    (OQueue Up 0, []); (OQueue Up 1, []); (OQueue Up 2, []); (OQueue Up 3, []); (OQueue Up 4, []); (OQueue Up 5, []);
    (OTick, [1; 2; 3; 4; 5; 6; 7; 8]%N)].
-Theorem tick_within_global_max_refuted :
+Example tick_witness_repaired :
+  match run (init 2 2) tick_ops with
+  | Ok s => h_cur (s_up s) = 3 /\ lenZ (e_u (getent (s_up s) 0)) = 3 /\ lenZ (e_u (getent (s_up s) 1)) = 0
+  | Err _ => False end.
+Proof. vm_compute. repeat split. Qed.
+
+(* "after receive_tick the global count is <= max(max_unchoked, slots forced by min_slots)": false
+   (also of the repaired code). A group that comes earlier in the requested-order takes its share of
+   the quota before the forced group is reached: 1 + 3 = 4 > max(2, 3). What holds is the sum form:
+   the connections beyond those forced by min_slots number at most max_unchoked. *)
+Definition tick_ops2 : list (op * list N) :=
+  [(ONew 0, []); (ONew 0, []); (ONew 0, []); (ONew 1, []); (OSetGroup 1 1, []);
+   (OSetMinSlots Up 0 3%N, []); (OSetGMax Up 2%N, []);
+   (OQueue Up 0, []); (OQueue Up 1, []); (OQueue Up 2, []); (OQueue Up 3, []);
+   (OTick, [1; 2; 3; 4; 5; 6; 7; 8]%N)].
+Theorem tick_max_form_refuted :
   exists ops s, run (init 2 2) ops = Ok s /\ h_max (s_up s) = 2%N /\
     e_min (getent (s_up s) 0) = 3%N /\ e_min (getent (s_up s) 1) = 0%N /\
-    h_cur (s_up s) = 6 /\ lenZ (e_u (getent (s_up s) 1)) = 3.
-Proof. exists tick_ops. eexists. vm_compute. repeat split. Qed.
+    h_cur (s_up s) = 4 /\ lenZ (e_u (getent (s_up s) 0)) = 3 /\ lenZ (e_u (getent (s_up s) 1)) = 1.
+Proof. exists tick_ops2. eexists. vm_compute. repeat split. Qed.
 
 (* "no op raises the number of locally unchoked download connections above max_download_unchoked":
    false. The download queue is built with flag_unchoke_all_new, so set_queued does not consult
